@@ -3,9 +3,9 @@
 from typing import Any, Dict, List, Optional
 
 from ..exc import ValidationError
-from ..lang.ast import Document, Field, OperationDefinition
+from ..lang.ast import Document, OperationDefinition
 from ..schema import Schema
-from .collect_fields import selected_fields
+from .collect_fields import collect_fields_untyped, selected_fields
 
 
 class MaxDepthValidationRule:
@@ -72,16 +72,23 @@ class MaxDepthValidationRule:
             ):
                 continue
 
+            # Top level fields can also be reached through (nested) fragments
+            # and can be skipped through directives.
+            root_fields = collect_fields_untyped(
+                op.selection_set.selections, fragments, variables
+            )
+
             paths = (
                 p
-                for f in op.selection_set.selections
-                if isinstance(f, Field)
+                for fields in root_fields.values()
+                for f in fields
                 for p in selected_fields(
                     f, fragments=fragments, variables=variables, maxdepth=None,
                 )
             )
 
-            depth = max(x.count("/") + 1 for x in paths)
+            # A flat operation selects no nested path at all.
+            depth = max((x.count("/") + 1 for x in paths), default=0)
 
             if depth > self.max_depth:
                 errors.append(
